@@ -82,6 +82,8 @@ class Verifier(QuantMixin, LoopMixin, ExprMixin, CallMixin, StmtMixin, BuiltinsM
         self.depth = 0
         self.quant_reset()
         self.orc_spec = {}
+        self.norm_of = {}
+        self.in_norm_fact = False
         self.awaited_call = False
         self.container_elem_type = {}
         self.trace_init()
@@ -308,6 +310,99 @@ class Verifier(QuantMixin, LoopMixin, ExprMixin, CallMixin, StmtMixin, BuiltinsM
         a = self.to_seq_val(self.ev(e.args[0], fr))
         b = self.to_seq_val(self.ev(e.args[1], fr))
         return self.to_val_bool(self.get_seq(a) == self.get_seq(b))
+
+    def ex_Assert(self, s, fr):
+        ct = getattr(self, 'current_contract', None)
+        if ct is not None and ct.extra.get('lemma') and fr.func is not None and fr.func.qualname == self.current_func:
+            # inside a lemma an assert is a proof obligation (and then a known fact)
+            saved = fr.is_spec
+            fr.is_spec = True
+            try:
+                c = self.merged_truth(lambda: self.truthy(self.ev(s.test, fr)), f'assert at line {s.lineno}')
+            finally:
+                fr.is_spec = saved
+            self.oblige('assert', f'line {s.lineno}: {ast.unparse(s.test)[:140]}', c, ct.props)
+            return
+        return super().ex_Assert(s, fr)
+
+    def prim_assume(self, e, fr):
+        """assume(cond) inside a lemma: restricts the lemma to states satisfying cond"""
+        c = self.truthy(self.ev(e.args[0], fr))
+        self.assume_checked(c)
+        return smt.NONE
+
+    def norm_val(self, v, depth: int = 0):
+        """the effect of json.loads(json.dumps(v)) on a JSON-encodable value (assumed contract of the
+        stdlib, validated by a bounded test): scalars are fixed points; tuples become lists; containers are
+        rebuilt member-wise; emptiness, lengths and member presence are preserved; idempotent"""
+        v = self.resolve_ite(v)
+        k = self.kind_of(v, force=True)
+        if k != 'ref':
+            return v
+        c = self.class_of(v)
+        if c is None:
+            return self.norm_term(v)
+        if c.builtin and c.name in ('dict',):
+            ks = self.concrete_keys(v)
+            if ks is not None and depth < 4:
+                return self.mk_dict([(kk, self.norm_val(self.dict_get(v, kk), depth + 1)) for kk in ks])
+        if c.builtin and c.name in ('list', 'tuple'):
+            items = self.seq_items(self.get_seq(v))
+            if items is not None and depth < 4:
+                return self.mk_list([self.norm_val(x, depth + 1) for x in items])
+        return self.norm_term(v)
+
+    def norm_term(self, v):
+        """norm of an opaque value as a term: scalars fixed, references mapped by the uninterpreted jnorm with
+        shape axioms; member-wise facts for dicts are added where members are read (dict_get)"""
+        f = z3.Function('ufv_jnorm', Val, Val)
+        tag = smt.tag_of(v)
+        if tag is not None and tag != 'ref':
+            return v
+        n = f(v)
+        L, T, D = (builtin_class(x) for x in ('list', 'tuple', 'dict'))
+        for x in (L, T, D):
+            self.use_class(x)
+        r, rn = Val.r(v), Val.r(n)
+        cid = smt.cls_of(r)
+        self._add_axiom(z3.Implies(Val.is_ref(v), z3.And(
+            smt.isjson(n), n != smt.ABSENT, Val.is_ref(n), rn >= 0, rn < smt.FRESH_BASE, f(n) == n,
+            z3.Implies(z3.Or(cid == L.cid, cid == T.cid), z3.And(
+                smt.cls_of(rn) == L.cid,
+                z3.Length(z3.Select(self.st.seq, rn)) == z3.Length(z3.Select(self.st.seq, r)))),
+            z3.Implies(cid == D.cid, z3.And(
+                smt.cls_of(rn) == D.cid, z3.Select(self.st.dlen, rn) == z3.Select(self.st.dlen, r))))))
+        # JSON-encodable (deep, uninterpreted): the only references are arrays and objects
+        enc = z3.Function('uf_encodable', Val, z3.BoolSort())
+        self._add_axiom(z3.Implies(z3.And(enc(v), Val.is_ref(v)), z3.Or(cid == L.cid, cid == T.cid, cid == D.cid)))
+        out = smt.simp(z3.If(Val.is_ref(v), n, v)) if tag is None else n
+        self.bound_ref(out)
+        self.norm_of[smt.simp(out).get_id()] = v
+        return out
+
+    def norm_member_fact(self, n, k, got) -> None:
+        """n = norm(d): member k of n is the norm of member k of d (absent iff absent)"""
+        d = self.norm_of.get(smt.simp(n).get_id())
+        if d is None or self.in_norm_fact:
+            return
+        self.in_norm_fact = True
+        try:
+            src = self.dict_get(d, k)
+            nsrc = self.norm_term(src) if smt.tag_of(src) != 'absent' else src
+            self._add_axiom(z3.Implies(z3.And(Val.is_ref(d), Val.is_ref(n)),
+                                       got == z3.If(src == smt.ABSENT, smt.ABSENT, nsrc)))
+            enc = z3.Function('uf_encodable', Val, z3.BoolSort())
+            self._add_axiom(z3.Implies(enc(d), z3.Or(src == smt.ABSENT, enc(src))))
+            if smt.tag_of(src) in (None, 'ref'):
+                self.norm_of[smt.simp(got).get_id()] = src
+        finally:
+            self.in_norm_fact = False
+
+    def prim_json_roundtrip(self, e, fr):
+        v = self.ev(e.args[0], fr)
+        enc = z3.Function('uf_encodable', Val, z3.BoolSort())
+        self.assume(enc(v))          # the lemma speaks about JSON-encodable payloads
+        return self.norm_val(v)
 
     def prim_uf(self, e, fr):
         """uf('name', a, b, ...): uninterpreted spec predicate over values (a dependency's semantics)"""
